@@ -34,6 +34,8 @@ OVERRIDES = [
     [{'k': 'cls', 'n': 'bytes'}, {'k': 'cls', 'n': 'object'}],
     # class to unrelated class; class to a hint that mentions the class below the top level (replaced once, not again inside)
     [{'k': 'cls', 'n': 'C'}, {'k': 'cls', 'n': 'B'}],
+    # the literal None as the replacement hint (PEP 484: None means type(None))
+    [{'k': 'cls', 'n': 'bytes'}, {'k': 'none'}], [{'k': 'cls', 'n': 'A'}, {'k': 'none'}],
     [{'k': 'cls', 'n': 'int'}, {'k': 'seq', 'o': 'list', 'a': [{'k': 'cls', 'n': 'int'}]}],
     [{'k': 'cls', 'n': 'str'}, {'k': 'opt', 'a': [{'k': 'vtuple', 'a': [{'k': 'cls', 'n': 'str'}], 't': False}]}],
 ]
